@@ -45,7 +45,7 @@ def _worker(job):
 
             def ob(w):
                 cl = fn(w, P)
-                cl2 = [(lab, f) for tags, lab, f in cl if prop in tags.split(',') or job.get('all_clauses', True)]
+                cl2 = [(lab, f) for tags, lab, f in cl if (set(tags.split(',')) & set(job['only_tags']) if job.get('only_tags') else (prop in tags.split(',') or job.get('all_clauses', True)))]
                 return sx.zB(sx.AndL(f for _, f in cl2)), {'clauses': cl2}
             r = harness.run(ob, L, budget_s=job['budget_s'], page=P.get('page', 1), batch=P.get('batch', 1))
             out = dict(status=r.status, stats=r.stats, flags=r.flags, detail=getattr(r, 'detail', ''), wall=r.wall,
@@ -101,7 +101,7 @@ def witness_replay(job):
 
             def ob(w):
                 cl = fn(w, P)
-                cl2 = [(lab, f) for tags, lab, f in cl if prop in tags.split(',') or job.get('all_clauses', True)]
+                cl2 = [(lab, f) for tags, lab, f in cl if (set(tags.split(',')) & set(job['only_tags']) if job.get('only_tags') else (prop in tags.split(',') or job.get('all_clauses', True)))]
                 return sx.zB(sx.AndL(f for _, f in cl2)), {'clauses': cl2}
             vals = {k: (Fraction(v) if isinstance(v, str) else v) for k, v in job['values'].items()}
             r = harness.replay_real(ob, L, vals, P.get('page', 1), P.get('batch', 1))
